@@ -309,3 +309,71 @@ func verifH_C06_json_texts() {
 	verifAssert((err == nil) == want, "C06 json texts: a body is accepted exactly when it is one JSON value satisfying the schema")
 	verifReach("end")
 }
+
+//verif:harness id=C06 tier=quick,thorough witness=end bounds="form decoding of an array property: schema {l: array of integers, s: string}; body = 0-2 occurrences of l (each one byte over [0-9a-z-]) and optionally s; the decoded object has l as an array with one item per occurrence, in order, typed; an item that is not an integer makes the request fail"
+func verifH_C06_form_array() {
+	prim := func(t string) *openapi3.SchemaRef {
+		return &openapi3.SchemaRef{Value: &openapi3.Schema{Type: &openapi3.Types{t}}}
+	}
+	schema := &openapi3.SchemaRef{Value: &openapi3.Schema{Type: &openapi3.Types{"object"}, Properties: openapi3.Schemas{
+		"l": {Value: &openapi3.Schema{Type: &openapi3.Types{"array"}, Items: prim("integer")}}, "s": prim("string")}}}
+	body := ""
+	var ltexts []string
+	for k := 0; k < verifChoose("len_l", 3); k++ {
+		t := verifNondetStringN("v_l", 1)
+		verifAssume((t[0] >= '0' && t[0] <= '9') || (t[0] >= 'a' && t[0] <= 'z') || t[0] == '-')
+		ltexts = append(ltexts, t)
+		if body != "" {
+			body += "&"
+		}
+		body += "l=" + t
+	}
+	hasS := verifChoose("has_s", 2) == 1
+	if hasS {
+		if body != "" {
+			body += "&"
+		}
+		body += "s=x"
+	}
+	allOK := true
+	for _, t := range ltexts {
+		if _, ok := verifTyped(t, "integer"); !ok {
+			allOK = false
+		}
+	}
+	rb := &openapi3.RequestBody{Required: true, Content: openapi3.Content{"application/x-www-form-urlencoded": &openapi3.MediaType{Schema: schema}}}
+	op := &openapi3.Operation{RequestBody: &openapi3.RequestBodyRef{Value: rb}}
+	if !allOK {
+		verifKnown("C06-form-field-parse-error-dropped", true)
+		input := verifBodyInput(op, "application/x-www-form-urlencoded", body, true, &Options{})
+		verifAssert(ValidateRequestBody(context.Background(), input, rb) != nil, "C06 form array: an item that is not a serialisation of its declared type makes the request fail")
+		verifReach("end")
+		return
+	}
+	dec := RegisteredBodyDecoder("application/x-www-form-urlencoded")
+	got, err := dec(strings.NewReader(body), http.Header{"Content-Type": []string{"application/x-www-form-urlencoded"}}, schema, func(string) *openapi3.Encoding { return nil })
+	verifAssert(err == nil, "C06 form array: a well-formed form body decodes")
+	if err != nil {
+		return
+	}
+	obj, ok := got.(map[string]any)
+	want := 0
+	if len(ltexts) > 0 {
+		want++
+	}
+	if hasS {
+		want++
+	}
+	verifAssert(ok && len(obj) == want, "C06 form array: the decoded object has exactly the present fields")
+	if ok && len(ltexts) > 0 {
+		arr, isArr := obj["l"].([]any)
+		verifAssert(isArr && len(arr) == len(ltexts), "C06 form array: a repeated key decodes to an array with one item per occurrence")
+		if isArr && len(arr) == len(ltexts) {
+			for k, t := range ltexts {
+				w, _ := verifTyped(t, "integer")
+				verifAssert(verifSame(arr[k], w), "C06 form array: array items decode in order to the values they encode")
+			}
+		}
+	}
+	verifReach("end")
+}
